@@ -1,7 +1,7 @@
 (* C07  Results mirror the return annotation (rendering of the result list). *)
 From Coq Require Import List String Ascii ZArith Bool Permutation Sorting.Sorted. Import ListNotations.
 From SV Require Import Lib.Str Model.Types Model.Api Model.Back Proofs.MoreProofs.
-From SV Require Import Model.FrontSmall Model.View Model.Front Proofs.FrontProofs Proofs.RunProofs.
+From SV Require Import Model.FrontSmall Model.View Model.Front Proofs.FrontProofs Proofs.RunProofs Proofs.InferProofs.
 
 (* "-> None": no results, and no marker either *)
 Theorem C07_none_no_results : forall classes rmap nc r t s,
@@ -41,9 +41,43 @@ Theorem C07_none_annotation_end_to_end : forall classes rmap nc env f fid rdocs 
   parse_results env f fid rdocs = Ok (rs, amb) ->
   result_string classes rmap nc rs s = Ok ([], s).
 Proof. exact none_annotation_end_to_end. Qed.
+(* ---- inferred results cover the inferred types (the grouping loop of _create_inferred_results) ----
+   covers rt t: the result type rt is t, or a union with t among its members (equality of the model: py_eq). For every list of
+   inferred types: a named type is covered by the first result, the k-th member of a tuple type by the k-th result. *)
+Theorem C07_inferred_results_cover : forall fid types docs_ rs,
+  create_inferred_results fid types docs_ = Ok rs ->
+  Forall (fun t => match t with
+                   | TNamed _ _ => exists r, nth_error rs 0 = Some r /\ covers (r_type r) t
+                   | TTuple items => forall k x, nth_error items k = Some x -> exists r, nth_error rs k = Some r /\ covers (r_type r) x
+                   | _ => True
+                   end) types.
+Proof. exact inferred_results_cover. Qed.
+(* every type that a return statement (found at any nesting depth of the body) contributes is represented among the inferred types *)
+Theorem C07_returns_are_represented : forall body ts e tys t,
+  infer_from_returns body = Ok (Some (TTuple ts)) ->
+  In (Some e) (find_returns_list body) -> return_types e = Ok tys -> In t tys ->
+  exists t', In t' ts /\ py_eq t' t = true.
+Proof. exact returns_are_represented. Qed.
+(* together: whatever named type some return statement produces, the first result covers it *)
+Theorem C07_returned_named_type_covered : forall body ts fid docs_ rs e tys n q,
+  infer_from_returns body = Ok (Some (TTuple ts)) -> create_inferred_results fid ts docs_ = Ok rs ->
+  In (Some e) (find_returns_list body) -> return_types e = Ok tys -> In (TNamed n q) tys ->
+  exists r, nth_error rs 0 = Some r /\ covers (r_type r) (TNamed n q).
+Proof. exact returned_named_type_covered. Qed.
+(* position-wise coverage of RETURNED TUPLES is false of the code: (1, "a") and ("a", 1) are one type for the tool (equality of
+   tuple types ignores the order), so the first result is Int although a string can be returned there: recorded finding *)
+Theorem C07_tuple_position_coverage_refuted :
+  infer_from_returns refute_body = Ok (Some (TTuple refute_ts)) /\ create_inferred_results (K"f") refute_ts [] = Ok refute_rs /\
+  option_map r_type (nth_error refute_rs 0) = Some (Some (TNamed (K"int") (K"builtins.int"))) /\
+  return_types (ETuple [EStr (K"a"); EInt 1%Z]) = Ok [TTuple [TNamed (K"str") (K"builtins.str"); TNamed (K"int") (K"builtins.int")]].
+Proof. exact tuple_position_coverage_refuted. Qed.
 Print Assumptions C07_none_no_results.
 Print Assumptions C07_result_items.
 Print Assumptions C07_none_suppresses_refuted.
 Print Assumptions C07_result_text_shape.
 Print Assumptions C07_front_annotated_results.
 Print Assumptions C07_none_annotation_end_to_end.
+Print Assumptions C07_inferred_results_cover.
+Print Assumptions C07_returns_are_represented.
+Print Assumptions C07_returned_named_type_covered.
+Print Assumptions C07_tuple_position_coverage_refuted.
